@@ -32,4 +32,15 @@ for d in /tmp/zq_t*y; do
     fi
   done
 done
+for d in /tmp/zs_v*w; do
+  [ -d "$d" ] || continue
+  id=C$(basename $d | sed 's/zs_v\(..\)w/\1/')
+  for k in 1 2 3; do
+    if [ -s $d/round4_$k.diff ]; then
+      mkdir -p /verif/seeded/$id
+      cp $d/round4_$k.diff /verif/seeded/$id/round4_$k.diff
+      [ -f $d/round4_demo_$k.py ] && cp $d/round4_demo_$k.py /verif/seeded/$id/round4_demo_$k.py
+    fi
+  done
+done
 ls /verif/seeded
